@@ -273,9 +273,6 @@ func spellEsc(w *strings.Builder, v *jv) {
 	switch v.k {
 	case 's':
 		w.WriteByte('"')
-		for _, c := range []byte(string(quote(v.s))[1 : len(quote(v.s))-1]) {
-			_ = c
-		}
 		q := string(quote(v.s))
 		q = q[1 : len(q)-1]
 		for i := 0; i < len(q); i++ {
